@@ -75,7 +75,10 @@ struct RecAlloc {
     static int dealloc(void*, void* p) { ::free(p); return 0; }
 };
 
+static std::string fmt(const char* f, ...) __attribute__((format(printf, 1, 2)));
 static bool g_live = false;
+static const char* g_count = nullptr;     // C12_COUNT=file: do not execute anything, append the number of cases per message type to the file
+static FILE* g_faillog = nullptr;          // C12_FAILLOG=prefix: every shard appends "signature<TAB>case" of failing cases to prefix.<shard>
 static const char* g_grep = nullptr;      // C12_GREP=substring: print index + descriptor of matching cases (debug aid for building replay files)
 static bool grep_begin(seqx::Ctx& c, const char* f, ...) __attribute__((format(printf, 2, 3)));
 static bool grep_begin(seqx::Ctx& c, const char* f, ...) {
@@ -229,26 +232,30 @@ struct Canon {
         size_t n = m.index._len / sizeof(Ent);
         if (!read(path + ".index", m.index._ptr, n * sizeof(Ent), nullptr)) return;
         if (!read(path + ".base_buffer", m.base_buffer._ptr, m.base_buffer._len, nullptr)) return;
-        size_t bl = m.base_buffer._len; bool bad = false;
+        bool bad = false; size_t maxprobe = 0;
+        std::vector<std::string> probes;
+        if (rg_probes) probes = *rg_probes; else { probes.push_back("aa"); probes.push_back("zz"); }
+        for (auto& pk : probes) maxprobe = std::max(maxprobe, pk.size());
         for (size_t i = 0; i < n; i++) {
             Ent e; memcpy((void*)&e, (char*)m.index._ptr + i * sizeof(Ent), sizeof e);
             const rpc::slice* sl[2] = {&e.first, &e.second};
             for (int k = 0; k < 2; k++) {
-                uint64_t off = (uint64_t)sl[k]->offset, len = sl[k]->length;
-                if (!(off <= bl && len <= bl - off)) {
-                    // what the library hands out / dereferences for this slice
-                    rstring s = *sl[k] | m.base_buffer;
-                    problem("map-slice-outside-base-buffer", fmt("%s.index[%zu].%s = {offset=%llu,length=%llu} but base_buffer is %zu bytes: slice|base = [%p,+%zu) is outside the supplied bytes (slice::anchor checks bounds with assert only)",
-                                                                 path.c_str(), i, k ? "value" : "key", (unsigned long long)off, (unsigned long long)len, bl, s.addr(), s.size()));
+                // what the library hands out / dereferences for this slice (Iterator::deserialize, find): slice | base_buffer
+                rstring s = *sl[k] | m.base_buffer;
+                if (rg && !rg->in(s.addr(), s._len)) {
+                    problem("map-slice-outside-input", fmt("%s.index[%zu].%s = {offset=%llu,length=%llu}, base_buffer is %zu bytes: slice|base_buffer = [%p,+%zu) is not inside the supplied bytes (slice::anchor checks bounds with assert only)",
+                                                           path.c_str(), i, k ? "value" : "key", (unsigned long long)sl[k]->offset, (unsigned long long)sl[k]->length, m.base_buffer._len, s.addr(), s._len));
                     bad = true;
                 }
             }
             if (!bad) {
-                rstring ks = e.first | m.base_buffer;         // the string sorted_map::find() compares: operator< -> sv()
+                // the bytes sorted_map::find() compares for this entry: string::operator< -> sv() = {c_str(), size()-1}, compared over min(size) bytes
+                rstring ks = e.first | m.base_buffer;
                 auto sv = ks.sv();
-                if (rg && !rg->in(sv.data(), sv.size())) {
-                    problem("map-key-view-outside-input", fmt("%s.index[%zu].key = {offset=%llu,length=%llu}: the view find()/operator< compares, string::sv() = {%p, %zu}, is not inside the supplied bytes (sv() computes size()-1)",
-                                                              path.c_str(), i, (unsigned long long)e.first.offset, (unsigned long long)e.first.length, sv.data(), sv.size()));
+                size_t cmp = std::min(sv.size(), maxprobe);
+                if (rg && !rg->in(sv.data(), cmp)) {
+                    problem("map-find-reads-outside-input", fmt("%s.index[%zu].key = {offset=%llu,length=%llu}: find() compares string::sv() = {%p, %zu} (size()-1 of a zero-length key) against the probe key, i.e. reads [%p,+%zu), which is not inside the supplied bytes",
+                                                                path.c_str(), i, (unsigned long long)e.first.offset, (unsigned long long)e.first.length, sv.data(), sv.size(), sv.data(), cmp));
                     bad = true;
                 }
             }
@@ -266,9 +273,6 @@ struct Canon {
             Walk<Canon> w(*this, path + fmt("[%zu].val", i));
             w.top(pr.second, false);
         }
-        static const char* default_probes[] = {"aa", "zz"};
-        std::vector<std::string> probes;
-        if (rg_probes) probes = *rg_probes; else for (auto p : default_probes) probes.push_back(p);
         for (auto& pk : probes) {
             rstring ps; ps.assign((const void*)pk.c_str(), pk.size() + 1);
             auto it = m.find(ps);
@@ -290,11 +294,20 @@ struct Canon {
 enum { FC_PTR, FC_LEN, FC_SUMMED, FC_SOFF, FC_SLEN };
 static const char* FCN[] = {"ptr", "len", "summed_size", "slice.offset", "slice.length"};
 struct Field { size_t off; uint64_t orig, rem; std::string name; int klass; };
+struct PairMut { size_t off_a; uint64_t va; size_t off_b; uint64_t vb; std::string name; int sub; };   // two fields of one slice overwritten together
 
 struct Locator {          // reference parser of a VALID image: where every length/offset/pointer field and every payload sits
     char* img; size_t pos, end;
-    std::vector<Field> fields;
+    std::vector<Field> fields; std::vector<PairMut> pairs;
     std::vector<std::pair<size_t, size_t>> payloads;     // (offset,len) of every contiguous payload
+    void add_pairs(rpc::slice* sl, const std::string& name, uint64_t bl) {
+        size_t oo = (char*)&sl->offset - img, ol = (char*)&sl->length - img;
+        pairs.push_back({oo, bl, ol, 0, name + " <- {offset=base_len,length=0}", 0});
+        pairs.push_back({oo, bl, ol, 1, name + " <- {offset=base_len,length=1}", 1});
+        if (bl) pairs.push_back({oo, bl - 1, ol, 0, name + " <- {offset=base_len-1,length=0}", 2});
+        if (bl) pairs.push_back({oo, bl - 1, ol, 1, name + " <- {offset=base_len-1,length=1}", 3});
+        pairs.push_back({oo, 0, ol, 0, name + " <- {offset=0,length=0}", 4});
+    }
     void add(void* addr, const std::string& name, int klass, uint64_t rem) {
         uint64_t o; memcpy(&o, addr, 8);
         fields.push_back({(size_t)((char*)addr - img), o, rem, name, klass});
@@ -328,6 +341,8 @@ struct Locator {          // reference parser of a VALID image: where every leng
             add(&e->first.length, path + fmt(".index[%zu].key.length", i), FC_SLEN, bl - e->first.offset);
             add(&e->second.offset, path + fmt(".index[%zu].value.offset", i), FC_SOFF, bl);
             add(&e->second.length, path + fmt(".index[%zu].value.length", i), FC_SLEN, bl - e->second.offset);
+            add_pairs(&e->first, path + fmt(".index[%zu].key", i), bl);
+            add_pairs(&e->second, path + fmt(".index[%zu].value", i), bl);
         }
         for (size_t i = 0; i < n; i++) {
             Ent* e = (Ent*)(ip + i * sizeof(Ent));
@@ -507,17 +522,18 @@ struct Tier {
     bool b3_boundary;          // part B: additionally 3 pieces with both cuts taken from payload/body boundaries
     bool words;                // part B: 8-byte word overwrite at every offset
     std::vector<int> flipmasks;
-    bool flip_all_cuts;
+    bool flip_more_cuts;       // flips: also cut right after the flipped byte / isolate it in its own piece
+    std::vector<int> lens2;    // reduced length set for the types with many dimensions
 };
 
-enum { KIND_A = 0, KIND_TAIL, KIND_HEAD, KIND_FIELD, KIND_FLIP, KIND_WORD, KIND_SELF };
+enum { KIND_A = 0, KIND_TAIL, KIND_HEAD, KIND_FIELD, KIND_FLIP, KIND_WORD, KIND_SELF, KIND_PAIR };
 
 template<class T>
 struct TypeRun {
     seqx::Ctx& c; const Tier& tier; int type_id; const char* tname; bool checked;
     // per shape
     std::string img, sdesc; size_t L = 0, B = 0;
-    std::vector<Item> expect; std::vector<Field> fields; std::vector<std::pair<size_t, size_t>> payloads;
+    std::vector<Item> expect; std::vector<Field> fields; std::vector<PairMut> pairs; std::vector<std::pair<size_t, size_t>> payloads;
     std::vector<std::string> probes;
 
     bool straddle(size_t lo, size_t len, const int* cuts, int nc) const { for (int i = 0; i < nc; i++) if ((size_t)cuts[i] > lo && (size_t)cuts[i] < lo + len) return true; return false; }
@@ -531,6 +547,11 @@ struct TypeRun {
         h = seqx::mix(h, o.result); h = seqx::mix(h, nc); h = seqx::mix(h, std::min<size_t>(o.nalloc, 3));
         h = seqx::mix(h, body_str * 2 + pay_str); h = seqx::mix(h, o.probs.empty() ? 0 : seqx::fnv(o.probs[0].sig, strlen(o.probs[0].sig)));
         c.cls(h);
+        if (g_faillog) {     // debug aid: one line per failing case
+            const char* sg = o.result == 2 ? "crash-in-deserialize" : o.result == 3 ? "crash-reading-fields" : (kind != KIND_A && o.result != 0 && checked && altered) ? "checked-message-alteration-accepted"
+                           : (o.result && !o.body_in) ? "body-outside-input" : !o.probs.empty() ? o.probs[0].sig : nullptr;
+            if (sg) fprintf(g_faillog, "%s\t%s\n", sg, c.sh->cur);
+        }
         if (o.result == 2) { c.fail("crash-in-deserialize", "SIGSEGV/SIGBUS at address %p inside DeserializerIOV::deserialize (contained by the harness)", o.fault); return; }
         if (o.result == 3) c.fail("crash-reading-fields", "SIGSEGV/SIGBUS at address %p while reading the fields of the returned message", o.fault);
         if (kind == KIND_A) {
@@ -586,7 +607,7 @@ struct TypeRun {
         std::vector<char> copy(img.begin(), img.end());
         Locator loc{copy.data(), 0, B};
         { Walk<Locator> w(loc, ""); w.top(*(T*)(copy.data() + B), true); }
-        fields.swap(loc.fields); payloads.swap(loc.payloads);
+        fields.swap(loc.fields); payloads.swap(loc.payloads); pairs.swap(loc.pairs);
         const char* TN = tname; const char* SD = sdesc.c_str();
 
         if (BEGIN("S %s{%s} L=%zu body@%zu layout self-check", TN, SD, L, B)) {
@@ -601,12 +622,12 @@ struct TypeRun {
         });
         // ---- (B) truncations
         for (size_t keep = 0; keep < L; keep++)
-            bfrags(keep, 0, [&](const int* cuts, int nc) {
+            frags(keep, tier.b_pieces, [&](const int* cuts, int nc) {
                 if (!BEGIN("B %s{%s} L=%zu body@%zu keep-first=%zu pieces=%d cuts=%d,%d", TN, SD, L, B, keep, nc + 1, cuts[0], cuts[1])) return;
                 judge(KIND_TAIL, 0, keep < sizeof(T) ? 0 : 1, img.substr(0, keep), true, cuts, nc);
             });
         for (size_t drop = 1; drop < L; drop++)
-            bfrags(L - drop, (long)drop, [&](const int* cuts, int nc) {
+            frags(L - drop, tier.b_pieces, [&](const int* cuts, int nc) {
                 if (!BEGIN("B %s{%s} L=%zu body@%zu drop-first=%zu pieces=%d cuts=%d,%d (cuts are offsets in the remaining bytes)", TN, SD, L, B, drop, nc + 1, cuts[0], cuts[1])) return;
                 judge(KIND_HEAD, 0, drop < B ? 0 : drop == B ? 1 : 2, img.substr(drop), true, cuts, nc);
             });
@@ -619,6 +640,14 @@ struct TypeRun {
                     std::string hb = img; memcpy(&hb[f.off], &val.v, 8);
                     judge(KIND_FIELD, f.klass * 16 + val.idx, val.v < f.rem ? 0 : val.v == f.rem ? 1 : 2, hb, true, cuts, nc);
                 });
+        // ---- (B) both fields of a sorted_map slice at once: zero-length / one-byte slices at the very end of base_buffer
+        for (auto& pm : pairs)
+            bfrags(L, 0, [&](const int* cuts, int nc) {
+                if (!BEGIN("B %s{%s} L=%zu body@%zu set %s (words @%zu <- %llu, @%zu <- %llu) pieces=%d cuts=%d,%d", TN, SD, L, B, pm.name.c_str(), pm.off_a, (unsigned long long)pm.va, pm.off_b,
+                           (unsigned long long)pm.vb, nc + 1, cuts[0], cuts[1])) return;
+                std::string hb = img; memcpy(&hb[pm.off_a], &pm.va, 8); memcpy(&hb[pm.off_b], &pm.vb, 8);
+                judge(KIND_PAIR, pm.sub, 0, hb, hb != img, cuts, nc);
+            });
         // ---- (B) one-byte flips: a checked message must be rejected
         if (checked)
             for (size_t pos = 0; pos < L; pos++)
@@ -628,8 +657,10 @@ struct TypeRun {
                         std::string hb = img; hb[pos] ^= (char)mask;
                         judge(KIND_FLIP, mask, pos < B ? 0 : 1, hb, true, cuts, nc);
                     };
-                    if (tier.flip_all_cuts) frags(L, 2, one);
-                    else { int cuts[2] = {0, 0}; one(cuts, 0); if (B > 0 && B < L) { cuts[0] = (int)B; one(cuts, 1); } if (pos > 0) { cuts[0] = (int)pos; one(cuts, 1); } }
+                    int cuts[2] = {0, 0}; one(cuts, 0);
+                    if (B > 0 && B < L) { cuts[0] = (int)B; one(cuts, 1); }
+                    if (pos > 0 && pos != B) { cuts[0] = (int)pos; one(cuts, 1); }
+                    if (tier.flip_more_cuts) { if (pos + 1 < L && pos + 1 != B) { cuts[0] = (int)pos + 1; one(cuts, 1); } if (pos > 0 && pos + 1 < L) { cuts[0] = (int)pos; cuts[1] = (int)pos + 1; one(cuts, 2); } }
                 }
         // ---- (B) an 8-byte word at every offset <- extreme values (finds length-like words the layout did not name)
         if (tier.words) {
@@ -653,7 +684,9 @@ struct TypeRun {
 template<class T, class Setter>
 static void explore(seqx::Ctx& c, const Tier& tier, int type_id, const char* tname, bool checked, const std::vector<Shape>& shapes, Setter set) {
     TypeRun<T> tr{c, tier, type_id, tname, checked};
-    for (auto& sh : shapes) { if (c.stop) return; tr.shape(sh, set); }
+    uint64_t before = c.counter;
+    for (auto& sh : shapes) { if (c.stop && !g_count) return; tr.shape(sh, set); }
+    if (g_count && c.shard == 0) { FILE* f = fopen(g_count, "a"); if (f) { fprintf(f, "%-9s shapes=%zu cases=%llu\n", tname, shapes.size(), (unsigned long long)(c.counter - before)); fclose(f); } }
 }
 
 static std::vector<Shape> cross(const std::vector<std::vector<int>>& dims, const std::vector<std::string>& names, const std::vector<std::vector<std::string>>& labels) {
@@ -673,10 +706,14 @@ static void seqx_enumerate(seqx::Ctx& c, bool thorough) {
     install_fault_handler();
     g_live = getenv("C12_LIVE") && atoi(getenv("C12_LIVE"));
     g_grep = getenv("C12_GREP");
+    if (getenv("C12_FAILLOG") && !g_faillog) g_faillog = fopen(fmt("%s.%d", getenv("C12_FAILLOG"), c.shard).c_str(), "a");
+    g_count = getenv("C12_COUNT"); if (g_count) c.stop = true;
     Tier t;
-    if (thorough) t = {{0, 1, 2, 7, 8, 9}, 3, 2, true, true, {0x01, 0x80, 0xff}, true};
-    else          t = {{0, 1, 8, 9}, 3, 2, false, false, {0x01, 0xff}, false};
+    if (thorough) t = {{0, 1, 2, 7, 8, 9}, 3, 2, true, true, {0x01, 0x80, 0xff}, true, {0, 1, 8, 9}};
+    else          t = {{0, 1, 8, 9}, 3, 2, false, false, {0x01, 0xff}, false, {0, 9}};
     auto& ln = t.lens; auto ll = numlabels(ln);
+    auto& l2 = t.lens2; auto ll2 = numlabels(l2);
+    std::vector<int> l3 = thorough ? std::vector<int>{0, 1, 2, 8} : std::vector<int>{0, 2}; auto ll3 = numlabels(l3);
     std::vector<int> iovs, ais, maps;
     std::vector<std::string> iovl, ail, mapl;
     for (size_t i = 0; i < IOVSHAPES.size(); i++) if (thorough || i == 0 || i == 3 || i == 4) { iovs.push_back((int)i); iovl.push_back(shape_str(IOVSHAPES[i])); }
@@ -686,9 +723,9 @@ static void seqx_enumerate(seqx::Ctx& c, bool thorough) {
 
     auto fixed_shapes = cross({}, {}, {});
     auto basic_shapes = cross({ln, ln, ln}, {"buf", "str", "arr"}, {ll, ll, ll});
-    auto aligned_shapes = cross({ln, ln, iovs, iovs}, {"b1", "ab", "iv", "aiv"}, {ll, ll, iovl, iovl});
-    auto nested_shapes = cross({ln, ais, two, ln}, {"in1.s", "ai.s", "fb", "tail"}, {ll, ail, numlabels(two), ll});
-    auto map_shapes = cross({ln, maps, ln}, {"buf", "map", "tail"}, {ll, mapl, ll});
+    auto aligned_shapes = cross({l2, l3, iovs, iovs}, {"b1", "ab", "iv", "aiv"}, {ll2, ll3, iovl, iovl});
+    auto nested_shapes = cross({l2, ais, two, l3}, {"in1.s", "ai.s", "fb", "tail"}, {ll2, ail, numlabels(two), ll3});
+    auto map_shapes = cross({l2, maps, l3}, {"buf", "map", "tail"}, {ll2, mapl, ll3});
 
     explore<Fixed>(c, t, 1, "Fixed", false, fixed_shapes, set_fixed<Fixed>);
     explore<FixedC>(c, t, 2, "FixedC", true, fixed_shapes, set_fixed<FixedC>);
